@@ -1,4 +1,6 @@
 """C10 - posterior-sample collections persist exactly and keep chain-major order."""
+import os
+
 import numpy as np
 from hypothesis import strategies as st
 
@@ -18,6 +20,7 @@ RULE = (
     ' Also: fixed cases in which the collection is written, read and re-written by separate interpreter processes.'
     ' A third of the CLI cases name every chain file thetas.h5 in a directory of its own; in a fifth of the cases every fourth write request of one save fails in turn with ENOSPC.'
     ' A quarter of the CLI cases name one chain file twice, another quarter pass a saved concatenation of two chains as the first file.'
+    ' Half the CLI cases also feed the command a chain file holding fewer samples than it declares.'
 )
 ASSUMPTIONS = [
     "NaN parameters are not generated (NaN payload equality through HDF5 is not part of the claim); magnitudes <= 1e100 so predictions stay finite",
@@ -329,6 +332,35 @@ def check_case(case):
                 for j, t in enumerate(flat):
                     col = np.asarray(t.predict_viability(screen), dtype=float)
                     require(S.same_bits(preds[:, j], col), "evaluate.columns_match_chain_ids", lambda: "prediction column %d is not the prediction of sample %d in chain-major order" % (j, j))
+
+            if case["cli"] and case["order_seed"] % 2 == 0:
+                # a chain file of a run that was stopped early (fewer samples than its declared size) among the command's inputs: the
+                # command refuses it - or, if it does write an evaluation, every column is a real sample's prediction under the
+                # right chain id
+                from vf.cli import CliExit
+
+                short_ = ThetaHolder(n_thetas=len(holders[0].thetas) + 2)
+                for t_ in holders[0].thetas:
+                    short_.add_theta(t_)
+                sf_, so_ = tmp.fresh("stopped_early.h5"), tmp.fresh("evaluation_partial.h5")
+                paths += [sf_, so_]
+                try:
+                    short_.save_h5(sf_)
+                    saved_ = True
+                except ValueError:
+                    saved_ = False  # (an unfinished collection cannot be saved: nothing to feed the command)
+                if saved_:
+                    try:
+                        run_cli("evaluate_model", ["--screen", sfile, "--thetas", sf_] + files[1:2] + ["--output", so_])
+                        returned_ = True
+                    except (CliExit, ValueError, IndexError, KeyError):
+                        returned_ = False
+                    if returned_ and os.path.exists(so_):
+                        me_ = ModelEvaluation.load_h5(so_)
+                        ref_ = list(holders[0].thetas) + (list(ThetaHolder.load_h5(files[1]).thetas) if len(files) > 1 else [])
+                        ids_ = [0] * len(holders[0].thetas) + ([1] * (len(ref_) - len(holders[0].thetas)))
+                        pr_ = np.asarray(me_.predictions, dtype=float)
+                        require(pr_.shape == (screen.size, len(ref_)) and [int(x) for x in me_.chain_ids] == ids_, "evaluate.unfinished_chain_file", lambda: "evaluate_model accepted a chain file holding %d of %d declared samples and wrote %r prediction columns with chain ids %r; the files hold %d samples with chain ids %r" % (len(holders[0].thetas), len(holders[0].thetas) + 2, pr_.shape, [int(x) for x in me_.chain_ids], len(ref_), ids_))
 
         built = _model_built(case, screen, paths)
 
